@@ -582,6 +582,19 @@ V({
     "trusted": ["chalk-recursive SearchGraph / Stack (abstract)", "SolverStuff::solve_iteration (havoc + ghost history)"],
 })
 
+# -------------------------------------------------------------------------- V24
+V({
+    "id": "V24",
+    "title": "rec_solve_goal_new: RecursiveContext::solve_goal, new-goal branch (chalk-recursive/src/fixed_point.rs)",
+    "template": "v24_solve_goal_new.rs",
+    "assumptions": [
+        "V24: solve_new_subgoal is a callee under the contract proved by V23 (stored answer = last iteration's product, returned minimums = that iteration's, nothing made permanent after it, the goal's node still in place with its goal field)",
+        "V24: SearchGraph / Stack / Cache are abstract with ghost views (node sequence, goal lookup, iteration history, count and content of move_to_cache batches); insert appends a node whose links point at itself, rollback_to / move_to_cache truncate to dfn, move_to_cache hands exactly the removed nodes to the cache; custom Index/IndexMut have update semantics and no precondition",
+        "V24: V::clone returns an equal value; the graph holds fewer than usize::MAX nodes; Stack::push as proved by K11",
+    ],
+    "trusted": ["chalk-recursive SearchGraph / Stack / Cache (abstract)"],
+})
+
 # ===========================================================================
 GLOBAL_ASSUMPTIONS = [
     "soundness of rustc+Kani's model of core/alloc and of CBMC; soundness of Verus and Z3",
